@@ -50,10 +50,21 @@ func galFile(f fileOut) string {
 // galCase prints the case with the observed contexts per declaration key
 func galCase(rd Rendered, got map[string]*found) string {
 	fidx := map[string]int{}
-	fs := make([]string, len(rd.Files))
+	fs := make([]string, len(rd.Graph))
+	for i := range fs {
+		fs[i] = "F 0 [] []" // a file of the specification that is never reached
+	}
 	for i, f := range rd.Files {
 		fidx[f.Name] = i
-		fs[i] = galFile(f)
+		fs[f.Idx] = galFile(f)
+	}
+	gr := make([]string, len(rd.Graph))
+	for i, im := range rd.Graph {
+		it := make([]string, len(im))
+		for j, x := range im {
+			it[j] = fmt.Sprint(x)
+		}
+		gr[i] = "[" + strings.Join(it, ";") + "]"
 	}
 	// one observation per key: the contexts found at the first module path of the first declaration with that key
 	seen := map[int]bool{}
@@ -75,7 +86,7 @@ func galCase(rd Rendered, got map[string]*found) string {
 		}
 		obs = append(obs, fmt.Sprintf("(%d,[%s])", d.Key, strings.Join(cs, ";")))
 	}
-	return fmt.Sprintf("C [%s] [%s]", strings.Join(fs, ";"), strings.Join(obs, ";"))
+	return fmt.Sprintf("C [%s] [%s] [%s]", strings.Join(fs, ";"), strings.Join(gr, ";"), strings.Join(obs, ";"))
 }
 
 func toCase(stream string, rd Rendered) Input {
@@ -112,7 +123,7 @@ func main() {
 	}
 	c := common.Setup("C08")
 	defer c.Finish()
-	c.Res.Rule = "each case = one generated specification (1-3 apps in 1-4 blocks each over 1-4 files of a star / chain / tree import graph with an occasional extra edge; types and tables with fields, simple endpoints, events, REST trees with every HTTP verb, nested statements, attributes, modifiers, array values and annotations; apps, types, fields, endpoints, REST methods and annotations re-declared) written with a random layout (indent widths 1-8 per body, tabs and spaces mixed per line, blank / whitespace-only / comment lines before declarations, trailing comments, extra blanks and tabs between tokens, non-ASCII text in quoted strings in front of elements on the same line, with and without a final newline); compiled by the real parser; distinct = distinct text; non-trivial = at least one element declared more than once or more than one file"
+	c.Res.Rule = "each case = one generated specification (1-3 apps in 1-4 blocks each over 1-5 files of a star / chain / tree import graph with up to n extra cross / diamond / back edges, in a third of the cases one app re-opened in every file; attribute and annotation values as string, flat array, nested arrays, empty array, empty string, multi-line doc string; types and tables with fields, simple endpoints, events, REST trees with every HTTP verb, nested statements, attributes, modifiers, array values and annotations; apps, types, fields, endpoints, REST methods and annotations re-declared) written with a random layout (indent widths 1-8 per body, tabs and spaces mixed per line, blank / whitespace-only / comment lines before declarations, trailing comments, extra blanks and tabs between tokens, non-ASCII text in quoted strings in front of elements on the same line, with and without a final newline); compiled by the real parser; distinct = distinct text; non-trivial = at least one element declared more than once or more than one file"
 	if c.Replay != "" {
 		var cs Input
 		if err := common.LoadReplay(c.Replay, &cs); err != nil {
@@ -178,7 +189,16 @@ Local Open Scope N_scope.`
 		default:
 			s = g.spec(2, 2, 2, 4)
 		}
+		if i%3 == 0 {
+			g.everywhere(&s)
+		}
 		add("random", s, layoutOpts{plain: i%10 == 9})
+	}
+	// import graphs of 3-5 files with cross, diamond and back edges; one app re-opened in every file
+	for i := 0; i < n/5; i++ {
+		s := g.spec(1+g.r.Intn(2), 2, 3+g.r.Intn(3), 2)
+		g.everywhere(&s)
+		add("graph", s, layoutOpts{plain: i%2 == 0})
 	}
 	// re-declarations that REPLACE instead of merging (Go oracle only; the model does not cover them): events declared
 	// in several blocks, [name=value] attributes repeated on several declarations of their owner
